@@ -62,6 +62,10 @@ inductive Comb (α : Type)
   | ok (a : α)
 deriving Repr
 
+/-- `combined := *r2` with the combined match fields. -/
+def mkComb (r2 : HRule) (pr : Nat) (la ra : List Addr) (lp rp : List PortRange) : HRule :=
+  { r2 with proto := pr, lAddrs := la, rAddrs := ra, lPorts := lp, rPorts := rp }
+
 /-- combineRules(r1, r2): r1 && r2 with the action / id / priority of r2. -/
 def combineRules (r1 r2 : HRule) : Comb HRule :=
   let proto : Option Nat :=
@@ -81,7 +85,7 @@ def combineRules (r1 r2 : HRule) : Comb HRule :=
         | some lp =>
           match combinePorts r1.rPorts r2.rPorts with
           | none => .panic
-          | some rp => .ok { r2 with proto := pr, lAddrs := la, rAddrs := ra, lPorts := lp, rPorts := rp }
+          | some rp => .ok (mkComb r2 pr la ra lp rp)
 
 /-- appendCombinedRules: `none` = panic. -/
 def combineWithTier (rule : HRule) : List HRule → Option (List HRule)
@@ -114,14 +118,18 @@ def flattenRec : List HRule → List (List HRule) → Option (List HRule)
 
 def passToBlock (r : HRule) : HRule := if r.action = .pass then { r with action := .block } else r
 
-/-- flattenTiers (the harness never passes an empty list of tiers; Go panics on it). -/
+/-- Apply `f` to the last element only. -/
+def mapLast {α : Type} (f : α → α) : List α → List α
+  | [] => []
+  | [x] => [f x]
+  | x :: y :: rest => x :: mapLast f (y :: rest)
+
+/-- flattenTiers: pass rules of the LAST tier become block, then the tiers are folded from the
+front (Go panics on an empty list of tiers; the harness never passes one). -/
 def flattenTiers (tiers : List (List HRule)) : Option (List HRule) :=
-  match tiers.reverse with
+  match mapLast (fun t => t.map passToBlock) tiers with
   | [] => none
-  | last :: revInit =>
-    match revInit.reverse ++ [last.map passToBlock] with
-    | [] => none
-    | first :: rest => flattenRec first rest
+  | first :: rest => flattenRec first rest
 
 /-- rewritePriorities(policies, limit). -/
 def rewritePriorities (l : List HRule) (limit : Nat) : List HRule :=
